@@ -602,7 +602,17 @@ func (g *gen) regex(nRandom int) []program {
 			case 1:
 				re = re + fmt.Sprintf("|z%d", g.r.Range(1, 500))
 			}
-			xs[i] = map[string]any{"s": common.Pick(g.r, stringPool), "re": re, "fl": common.Pick(g.r, regexFlags)}
+			fl := common.Pick(g.r, regexFlags)
+			if i > 0 && g.r.Chance(1, 3) {
+				// the regex of an earlier input again, with another flag string (supported after
+				// unsupported and the reverse): what one run caches the other must not be served
+				prev := xs[g.r.Intn(i)].(map[string]any)
+				re = prev["re"].(string)
+				if fl == prev["fl"] {
+					fl = common.Pick(g.r, []string{"x", "gx", "n", "g", ""})
+				}
+			}
+			xs[i] = map[string]any{"s": common.Pick(g.r, stringPool), "re": re, "fl": fl}
 		}
 		return xs
 	}
